@@ -56,13 +56,13 @@ ASSUMPTIONS = [
     "block-wise oracle judges only byte identity of the reassembled body and termination, not RFC 7959 details (M flag on an exact multiple, ETag, Size2)",
 ]
 REQUIRED_MONITORS = {
-    "quick": {"guard_selftest": 16, "confinement": 20000, "outside_rejected": 2000, "nowrite_unchanged": 10000, "block_fetch": 200, "block_fetch_bytes": 100000, "served_inside": 200},
-    "thorough": {"guard_selftest": 16, "confinement": 200000, "outside_rejected": 20000, "nowrite_unchanged": 100000, "block_fetch": 1000, "block_fetch_bytes": 1000000, "served_inside": 2000},
+    "quick": {"guard_selftest": 16, "confinement": 20000, "outside_rejected": 2000, "nowrite_unchanged": 10000, "block_fetch": 200, "block_fetch_bytes": 50000, "served_inside": 200},
+    "thorough": {"guard_selftest": 16, "confinement": 200000, "outside_rejected": 20000, "nowrite_unchanged": 100000, "block_fetch": 1000, "block_fetch_bytes": 500000, "served_inside": 1000},
 }
 INTERPRETER = "venv"
 SHIMS = False
 EXHAUSTIVE = {
-    "uri_path_lists_quick": "all lists of length 0..3 over {'', '.', '..', 'a', 'sub', 'a/b', '/', '/etc', 'x\\0y', 255-byte name, unicode name, each component of the decoy's absolute path} x {GET, POST, PUT, DELETE, FETCH, PATCH, iPATCH} x write {off, on}",
+    "uri_path_lists_quick": "all lists of length 0..3 over {'', '.', '..', 'a', 'sub', 'a/b', '/', '/etc', 'x\\0y', 255-byte name, unicode name, each component of the decoy's absolute path} x {GET, POST, PUT, DELETE} x write {off, on}; length 0..2 for {FETCH, PATCH, iPATCH} (length 3 as well in the thorough tier)",
     "uri_path_lists_thorough": "additionally length 4 over the same alphabet x {GET, PUT, DELETE, POST} x write {off, on}, and length 0..3 over the alphabet extended by {'%2e%2e', '\\\\', '~', '...', ' ', '．．', 'a∕b'} x 7 methods x write {off, on}",
     "directed_families": "{'', '','' , '','','' , none, 'sub', '.', '..', 'sub','..'} x {absolute path of decoy dir, of root} x 15 suffixes; dot-dot and slash families; x {GET, PUT, DELETE, POST} x write {off, on}",
     "block_fetch": "every file of the tree x SZX 0..6 sequential from NUM 0; every file x (6 -> s) and (s -> 6) size switch; default (no Block2 in the first request)",
@@ -584,9 +584,10 @@ def lists_upto(alpha, n):
 
 def exhaustive_cases(tier, nchain):
     base = BASE_ALPHABET + ["@D%d" % i for i in range(nchain)]
+    cheap = (FETCH, PATCH, IPATCH)  # no render_* method exists for them: 4.05 without any file-system access
     for w in (0, 1):
         for m in ALL_METHODS:
-            for p in lists_upto(base, 3):
+            for p in lists_upto(base, 2 if (m in cheap and tier == "quick") else 3):
                 yield {"k": "ex", "w": w, "m": m, "p": p}
     if tier == "thorough":
         for w in (0, 1):
